@@ -1,4 +1,5 @@
-import CfrVerif.Proofs.BestResponse
+import CfrVerif.Proofs.ViewBridge
+import CfrVerif.Proofs.CompileWF
 /-!
 # C01 — reported utility and regret of any strategy profile are exact
 
@@ -34,14 +35,46 @@ def utility (g : Game α) (σ : Profile α) (me : Bool) : α :=
 reach probability times own payoff (`evV`), zero-probability actions contributing nothing -/
 theorem utility_eq_evV (g : Game α) (hg : GameWF g) (σ : Profile α) (hσ : ProfileOK g σ) (me : Bool) :
     utility g σ me = evV (σ me) (view g.chance (σ (!me)) me g.root) := by
-  sorry
+  have _ := hg
+  have hnn : ∀ one i, ∀ p ∈ (σ one).at i, 0 ≤ p :=
+    fun one i => isStrat_at_nonneg _ (hσ one).1 i
+  rw [evV_view g.chance σ me hnn g.root]
+  rfl
 
 /-- **reported utilities**: player one's is the expected payoff, player two's its negation -/
 theorem eval_util (g : Game α) (σ : Profile α) :
     (getInfo g σ).playerUtility true = utility g σ true ∧
     (getInfo g σ).playerUtility false = utility g σ false ∧
     (getInfo g σ).playerUtility false = -(getInfo g σ).playerUtility true := by
-  sorry
+  refine ⟨?_, ?_, ?_⟩ <;> simp [getInfo, StrategiesInfo.playerUtility, utility]
+
+theorem Profile.deviate_self (σ : Profile α) (me : Bool) (τ : Strat α) :
+    (σ.deviate me τ) me = τ := by simp [Profile.deviate]
+
+theorem Profile.deviate_other (σ : Profile α) (me : Bool) (τ : Strat α) :
+    (σ.deviate me τ) (!me) = σ (!me) := by
+  cases me <;> simp [Profile.deviate]
+
+theorem Profile.deviate_same (σ : Profile α) (me : Bool) : σ.deviate me (σ me) = σ := by
+  funext p
+  by_cases h : p = me
+  · subst h; simp [Profile.deviate]
+  · simp [Profile.deviate, h]
+
+theorem profileOK_deviate {g : Game α} {σ : Profile α} (hσ : ProfileOK g σ) (me : Bool)
+    (τ : Strat α) (h1 : IsStrat τ) (h2 : FitsGame g me τ) : ProfileOK g (σ.deviate me τ) := by
+  intro p
+  by_cases h : p = me
+  · subst h; simp [Profile.deviate, h1, h2]
+  · simp [Profile.deviate, h, hσ p]
+
+/-- the utility of a unilateral deviation is the value of the deviating strategy on the
+player's view of the game against the opponent's fixed strategy -/
+theorem utility_deviate (g : Game α) (hg : GameWF g) (σ : Profile α) (hσ : ProfileOK g σ)
+    (me : Bool) (τ : Strat α) (h1 : IsStrat τ) (h2 : FitsGame g me τ) :
+    utility g (σ.deviate me τ) me = evV τ (view g.chance (σ (!me)) me g.root) := by
+  rw [utility_eq_evV g hg _ (profileOK_deviate hσ me τ h1 h2) me, Profile.deviate_self,
+    Profile.deviate_other]
 
 /-- **the reported best-response value is the greatest utility over all unilateral deviations**:
 every valid behavioural strategy `τ` of the player yields at most `optimalDeviations`, and some
@@ -50,30 +83,174 @@ theorem eval_best_response (g : Game α) (hg : GameWF g) (σ : Profile α) (hσ 
     (me : Bool) :
     IsGreatest { u | ∃ τ, IsStrat τ ∧ FitsGame g me τ ∧ u = utility g (σ.deviate me τ) me }
       (optimalDeviations g me (σ (!me))) := by
-  sorry
+  obtain ⟨hist, hpr, hord⟩ := hg.recall me
+  have hch : ∀ ps ∈ g.chance, ∀ p ∈ ps, 0 ≤ p :=
+    fun ps hps p hp => ((hg.chancePos ps hps).1 p hp).le
+  have hok := view_VOK g hch me (σ (!me)) (hσ (!me)).1 (hσ (!me)).2 g.root hg.nodes
+  have hprv := view_PRV g.chance (σ (!me)) me hist g.root [] hpr
+  have hpos : ∀ i, i < (g.infos me).length → 1 ≤ nActsOf g me i := by
+    intro i hi
+    have := hg.actsTwo me ((g.infos me)[i]) (List.getElem_mem hi)
+    simp only [nActsOf, List.getD_eq_getElem?_getD, List.getElem?_eq_getElem hi, Option.getD_some]
+    omega
+  obtain ⟨hub, τs, hτs, heq⟩ := bestResponse_optimal _ _ _ hist hok hprv hord hpos
+  have hod : optimalDeviations g me (σ (!me))
+      = bestResponse (g.infos me).length (nActsOf g me) (view g.chance (σ (!me)) me g.root) := rfl
+  rw [hod]
+  constructor
+  · obtain ⟨a, b⟩ := (stratOK_iff g me τs).mp hτs
+    exact ⟨τs, a, b, by rw [utility_deviate g hg σ hσ me τs a b]; exact heq.symm⟩
+  · rintro u ⟨τ, h1, h2, rfl⟩
+    rw [utility_deviate g hg σ hσ me τ h1 h2]
+    exact hub τ ((stratOK_iff g me τ).mpr ⟨h1, h2⟩)
 
 /-- **reported regrets**: the largest gain from a unilateral switch, zero if there is none -/
 theorem eval_regret (g : Game α) (σ : Profile α) (me : Bool) :
     (getInfo g σ).playerRegret me
       = max (optimalDeviations g me (σ (!me)) - utility g σ me) 0 := by
-  sorry
+  cases me <;> simp [getInfo, StrategiesInfo.playerRegret, utility, fmax_eq_max]
 
 /-- the gain is never negative for a valid profile (staying put is one of the deviations), so
 the clamp at zero only removes rounding noise -/
 theorem best_response_ge_utility (g : Game α) (hg : GameWF g) (σ : Profile α) (hσ : ProfileOK g σ)
     (me : Bool) : utility g σ me ≤ optimalDeviations g me (σ (!me)) := by
-  sorry
+  refine (eval_best_response g hg σ hσ me).2 ⟨σ me, (hσ me).1, (hσ me).2, ?_⟩
+  rw [Profile.deviate_same]
 
 /-- **total regret**: the larger of the two -/
 theorem eval_total_regret (g : Game α) (σ : Profile α) :
     (getInfo g σ).regret = max ((getInfo g σ).playerRegret true) ((getInfo g σ).playerRegret false) := by
-  sorry
+  simp [StrategiesInfo.regret, StrategiesInfo.playerRegret, fmax_eq_max]
+
+/-- **for every game the library accepts**: whatever `Game::from_root` returns `Ok` for is well
+formed (`compile_ok_wf`), so on it the reported best-response value is the greatest utility over
+all unilateral deviations, for every valid profile -/
+theorem accepted_game_best_response (r : Raw α) (hs : Raw.Shape r) (g : Game α)
+    (hacc : fromRoot r = .ok g) (σ : Profile α) (hσ : ProfileOK g σ) (me : Bool) :
+    IsGreatest { u | ∃ τ, IsStrat τ ∧ FitsGame g me τ ∧ u = utility g (σ.deviate me τ) me }
+      (optimalDeviations g me (σ (!me))) :=
+  eval_best_response g (compile_ok_wf r hs g hacc) σ hσ me
 
 /-- a profile has regret zero exactly when it is a Nash equilibrium: no player can gain by any
 unilateral deviation -/
 theorem regret_zero_iff_nash (g : Game α) (hg : GameWF g) (σ : Profile α) (hσ : ProfileOK g σ) :
     (getInfo g σ).regret = 0 ↔
       ∀ me τ, IsStrat τ → FitsGame g me τ → utility g (σ.deviate me τ) me ≤ utility g σ me := by
-  sorry
+  rw [eval_total_regret, eval_regret, eval_regret]
+  have ht := eval_best_response g hg σ hσ true
+  have hf := eval_best_response g hg σ hσ false
+  constructor
+  · intro h me τ h1 h2
+    have a : max (optimalDeviations g true (σ (!true)) - utility g σ true) 0 ≤ 0 :=
+      le_of_le_of_eq (le_max_left _ _) h
+    have b : max (optimalDeviations g false (σ (!false)) - utility g σ false) 0 ≤ 0 :=
+      le_of_le_of_eq (le_max_right _ _) h
+    have a' := le_trans (le_max_left _ _) a
+    have b' := le_trans (le_max_left _ _) b
+    cases me
+    · have := hf.2 ⟨τ, h1, h2, rfl⟩
+      linarith
+    · have := ht.2 ⟨τ, h1, h2, rfl⟩
+      linarith
+  · intro h
+    obtain ⟨τ1, a1, b1, e1⟩ := ht.1
+    obtain ⟨τ2, a2, b2, e2⟩ := hf.1
+    have c1 := h true τ1 a1 b1
+    have c2 := h false τ2 a2 b2
+    rw [← e1] at c1
+    rw [← e2] at c2
+    have m1 : max (optimalDeviations g true (σ (!true)) - utility g σ true) 0 = 0 :=
+      max_eq_right (by linarith)
+    have m2 : max (optimalDeviations g false (σ (!false)) - utility g σ false) 0 = 0 :=
+      max_eq_right (by linarith)
+    rw [m1, m2, max_self]
+
+/-! ## non-vacuity
+
+A concrete game with a chance node, a shared infoset of player two (matching pennies on the
+left), a three-action infoset and a player-one decision below a player-two decision; a profile
+that is not an equilibrium (utility and both regrets non-zero) and one that is. -/
+
+def exRaw01 : Raw ℚ :=
+  .chance none [1, 3]
+    [.player true 0 [0, 1]
+       [.player false 0 [0, 1] [.term 1, .term (-1)],
+        .player false 0 [0, 1] [.term (-1), .term 1]],
+     .player false 1 [0, 1, 2] [.term 2, .term 0, .player true 1 [0, 1] [.term 4, .term (-4)]]]
+
+/-- what `fromRoot exRaw01` returns (checked below) -/
+def exGame01 : Game ℚ where
+  chance := [[1/4, 3/4]]
+  p1 := [⟨0, [0, 1], none⟩, ⟨1, [0, 1], none⟩]
+  p2 := [⟨0, [0, 1], none⟩, ⟨1, [0, 1, 2], none⟩]
+  s1 := []
+  s2 := []
+  root := .chance 0
+    [.player true 0
+       [.player false 0 [.term 1, .term (-1)],
+        .player false 0 [.term (-1), .term 1]],
+     .player false 1 [.term 2, .term 0, .player true 1 [.term 4, .term (-4)]]]
+
+mutual
+def exNodeBeq : Node ℚ → Node ℚ → Bool
+  | .term p, .term q => p == q
+  | .chance i ks, .chance j ls => i == j && exNodeBeqL ks ls
+  | .player o i ks, .player o' j ls => o == o' && i == j && exNodeBeqL ks ls
+  | _, _ => false
+def exNodeBeqL : List (Node ℚ) → List (Node ℚ) → Bool
+  | [], [] => true
+  | k :: ks, l :: ls => exNodeBeq k l && exNodeBeqL ks ls
+  | _, _ => false
+end
+
+/-- `exGame01` is the compiled `exRaw01`, field by field -/
+example : (match fromRoot exRaw01 with
+    | .ok g => g.chance == exGame01.chance && g.p1 == exGame01.p1 && g.p2 == exGame01.p2 &&
+        g.s1 == exGame01.s1 && g.s2 == exGame01.s2 && exNodeBeq g.root exGame01.root
+    | .error _ => false) = true := by
+  decide +kernel
+
+/-- player one: heads for sure, then a coin; player two: `(1/4, 3/4)`, then `(1/2, 0, 1/2)` -/
+def exProfile01 : Profile ℚ :=
+  fun p => if p then [[1, 0], [1/2, 1/2]] else [[1/4, 3/4], [1/2, 0, 1/2]]
+/-- an equilibrium: both mix evenly at pennies, one would take the `4`, so two takes the `0` -/
+def exNash01 : Profile ℚ :=
+  fun p => if p then [[1/2, 1/2], [1, 0]] else [[1/2, 1/2], [0, 1, 0]]
+
+theorem exGame01_wf : GameWF exGame01 where
+  chancePos := by decide +kernel
+  nodes := by simp [NodeOK, NodeOKL, exGame01, Game.infos]
+  recall := fun me => ⟨fun _ => [], by cases me <;> simp [PR, PRL, PRD, exGame01], by simp⟩
+  tables1 := ⟨by decide, by decide, by decide, by decide⟩
+  tables2 := ⟨by decide, by decide, by decide, by decide⟩
+  actsTwo := by intro me; cases me <;> decide
+
+theorem exProfile01_ok : ProfileOK exGame01 exProfile01 := by
+  intro me
+  cases me <;> simp only [IsStrat, IsDist, FitsGame] <;> decide +kernel
+theorem exNash01_ok : ProfileOK exGame01 exNash01 := by
+  intro me
+  cases me <;> simp only [IsStrat, IsDist, FitsGame] <;> decide +kernel
+
+/-- `1/4 · (-1/2) + 3/4 · (1/2 · 2 + 1/2 · 0) = 5/8` -/
+example : (getInfo exGame01 exProfile01).util = 5/8 := by decide +kernel
+example : utility exGame01 exProfile01 true = 5/8 ∧ utility exGame01 exProfile01 false = -5/8 := by
+  decide +kernel
+/-- player one's best response: tails at pennies, the `4` below: `1/4 · 1/2 + 3/4 · 3 = 19/8` -/
+example : optimalDeviations exGame01 true (exProfile01 false) = 19/8 := by decide +kernel
+/-- player two's best response: tails at pennies (`+1` for two), the `0`: `1/4 · 1 + 3/4 · 0` -/
+example : optimalDeviations exGame01 false (exProfile01 true) = 1/4 := by decide +kernel
+example : (getInfo exGame01 exProfile01).playerRegret true = 7/4 := by decide +kernel
+example : (getInfo exGame01 exProfile01).playerRegret false = 7/8 := by decide +kernel
+example : (getInfo exGame01 exProfile01).regret = 7/4 := by decide +kernel
+/-- a profitable deviation of player one, as `eval_best_response` promises -/
+example : utility exGame01 (exProfile01.deviate true [[0, 1], [1, 0]]) true = 19/8 := by
+  decide +kernel
+example : (getInfo exGame01 exNash01).util = 0 ∧ (getInfo exGame01 exNash01).regret = 0 := by
+  decide +kernel
+/-- the hypotheses of the theorems hold on this state: `exNash01` is an equilibrium -/
+example : ∀ me τ, IsStrat τ → FitsGame exGame01 me τ →
+    utility exGame01 (exNash01.deviate me τ) me ≤ utility exGame01 exNash01 me :=
+  (regret_zero_iff_nash exGame01 exGame01_wf exNash01 exNash01_ok).mp (by decide +kernel)
 
 end Cfr
